@@ -21,7 +21,7 @@ func (f fcase) String() string {
 var faultSites = []string{
 	"lookup", "check", "isunlocked-error", "locked-unlock-error", "locked-no-passphrase", "sealed-account",
 	"rules-unknown", "rules-failed", "rules-denied", "rules-short", "rules-empty",
-	"store-fetch-error", "store-write-error", "record-wrong-length", "record-undecodable", "store-closed",
+	"store-fetch-error", "store-write-error", "store-write-error-behind-refused-entry", "record-wrong-length", "record-undecodable", "store-closed",
 	"sign-error", "domain-31-bytes", "domain-33-bytes", "data-31-bytes",
 }
 
@@ -30,7 +30,7 @@ func siteApplies(site, kind string, size int) bool {
 	switch site {
 	case "store-fetch-error", "store-write-error", "record-wrong-length", "record-undecodable", "store-closed":
 		return slashable
-	case "rules-short", "rules-empty":
+	case "rules-short", "rules-empty", "store-write-error-behind-refused-entry":
 		return kind == "atts" && size >= 2
 	case "data-31-bytes":
 		return kind == "gen" || kind == "multi"
@@ -151,6 +151,16 @@ func runFaultMatrix(t *testing.T, rc *RunCtx) {
 		plan.Set("store-write", kn, "error")
 		plan.Set("store-write", "", "error") // batch store has no key
 		whole = fc.Kind == "atts" && fc.Size > 1
+	case "store-write-error-behind-refused-entry":
+		// Another position of the batch is refused by the rules (target not above source); the write of the
+		// remaining, approvable positions then fails: nobody may be signed.
+		other := (fc.Pos + 1) % len(o.Entries)
+		if fc.Pos > 0 {
+			other = 0
+		}
+		o.Entries[other].Src, o.Entries[other].Tgt = 5, 3
+		plan.Set("store-write", "", "error")
+		whole = true
 	case "record-wrong-length":
 		w.s.Direct(func() {
 			_ = w.inst.Rules.VerifStore().Store(context.Background(), storeKey(pop.Accts[e.Acct].PubKey, action), []byte{0x01, 1, 2, 3})
